@@ -382,6 +382,32 @@ def prog_utt():
     return p
 reg(prog_utt)
 
+def prog_alt():
+    """alternative guarded inputs on ONE flow (not a ternary): a CTL flow and a data flow whose active input
+    dependency is the first or the second guarded one depending on the instance; a CTL flow with three
+    guarded alternatives of which none may be active (then no control is expected)"""
+    p = Prog("alt", ["N"])
+    f = p.task("FAST").param("k", "0", "N-1").affinity("k")
+    f.flow("D", "RW").inp(Coll("k")).out(TaskRef("CONS", "T", ["k"]))
+    f.flow("C", "CTL").out(TaskRef("SA", "C", ["k/2"]), "(k % 2) == 0").out(TaskRef("SB", "C", ["k/2"]), "(k % 2) == 1")
+    a = p.task("SA").param("j", "0", "(N-1)/2").affinity("2*j + 1")
+    a.flow("C", "CTL").inp(TaskRef("FAST", "C", ["2*j"]))
+    a.flow("X", "CTL").out(TaskRef("CONS", "X", ["2*j"]))
+    a.flow("Z", "CTL").out(TaskRef("CONS", "Z", ["2*j"]), "(j % 2) == 0")
+    a.flow("V", "WRITE").inp(New()).out(TaskRef("CONS", "U", ["2*j"]))
+    b = p.task("SB").param("j", "0", "(N/2)-1").affinity("2*j")
+    b.flow("C", "CTL").inp(TaskRef("FAST", "C", ["2*j+1"]))
+    b.flow("X", "CTL").out(TaskRef("CONS", "X", ["2*j+1"]))
+    b.flow("Z", "CTL").out(TaskRef("CONS", "Z", ["2*j+1"]), "(j % 3) == 1")
+    b.flow("V", "WRITE").inp(New()).out(TaskRef("CONS", "U", ["2*j+1"]))
+    c = p.task("CONS").param("k", "0", "N-1").affinity("k")
+    c.flow("T", "RW").inp(TaskRef("FAST", "D", ["k"])).out(Coll("k"))
+    c.flow("X", "CTL").inp(TaskRef("SA", "X", ["k/2"]), "(k % 2) == 0").inp(TaskRef("SB", "X", ["k/2"]), "(k % 2) == 1")
+    c.flow("Z", "CTL").inp(TaskRef("SA", "Z", ["k/2"]), "(k % 2) == 0 && ((k/2) % 2) == 0").inp(TaskRef("SB", "Z", ["k/2"]), "(k % 2) == 1 && ((k/2) % 3) == 1")
+    c.flow("U", "READ").inp(TaskRef("SA", "V", ["k/2"]), "(k % 2) == 0").inp(TaskRef("SB", "V", ["k/2"]), "(k % 2) == 1")
+    return p
+reg(prog_alt)
+
 if __name__ == "__main__":
     if len(sys.argv) < 3:
         print("usage: gen.py <program|list> <outdir>"); sys.exit(2)
